@@ -1,20 +1,22 @@
 (* Wire/CborCorr — correspondence: evaluate the model on the cases harness/cmd/wirecbor ran
    against the real Encoder / Decoder and report the ids that differ. *)
 From Coq Require Import List NArith ZArith Bool.
-From Verif Require Import Base.Outcome Wire.Item Gen.Consts Wire.CborFloat Wire.Cbor.
+From Verif Require Import Base.Outcome Wire.Item Gen.Consts Wire.CborFloat Wire.Cbor Wire.CborVU Wire.CborDup.
 Import ListNotations.
 Open Scope N_scope.
 
 Inductive case :=
 | CEnc (id : N) (O : eopts) (i : item) (out : list N)
 | CDec (id : N) (D : dopts) (b : list N) (cls : N) (tree : item) (nread : N)
+| CDecVU (id : N) (D : dopts) (b : list N) (cls : N) (tree : item) (nread : N)   (* Decode with ValidateUnicode = true *)
+| CDecDup (id : N) (D : dopts) (b : list N) (cls : N) (tree : item) (nread : N)  (* Decode with MapValueReset / InterfaceReset: repeated keys *)
 | CSkip (id : N) (D : dopts) (depth : Z) (b : list N) (cls : N) (nread : N)
 | CHalf (id : N) (hi : N) (outs : list N)
 | CLeaf (id : N) (fn : N) (args : list N) (out : N).
 
 Definition case_id (c : case) : N :=
   match c with
-  | CEnc id _ _ _ | CDec id _ _ _ _ _ | CSkip id _ _ _ _ _ | CHalf id _ _ | CLeaf id _ _ _ => id
+  | CEnc id _ _ _ | CDec id _ _ _ _ _ | CDecVU id _ _ _ _ _ | CDecDup id _ _ _ _ _ | CSkip id _ _ _ _ _ | CHalf id _ _ | CLeaf id _ _ _ => id
   end.
 
 (* the harness prints maps in its own order: compare entries as sets (keys are distinct) *)
@@ -77,6 +79,20 @@ Definition check_case (c : case) : bool :=
   | CDec _ D b cls tree nread =>
       match dec_naked D (fuel_for b) b with
       | Err EUnsupported => true                       (* outside the modelled domain *)
+      | Ok (i, rest) => (cls =? 0) && item_eqb i tree && (nread =? nread_of b rest)
+      | Err e => cls =? coarse e
+      | OutOfFuel => false
+      end
+  | CDecVU _ D b cls tree nread =>
+      match dec_naked_vu true D (fuel_for b) b with
+      | Err EUnsupported => true
+      | Ok (i, rest) => (cls =? 0) && item_eqb i tree && (nread =? nread_of b rest)
+      | Err e => cls =? coarse e
+      | OutOfFuel => false
+      end
+  | CDecDup _ D b cls tree nread =>
+      match dec_naked_dup D (fuel_for b) b with
+      | Err EUnsupported => true
       | Ok (i, rest) => (cls =? 0) && item_eqb i tree && (nread =? nread_of b rest)
       | Err e => cls =? coarse e
       | OutOfFuel => false
